@@ -84,3 +84,9 @@ pub fn lic_open_allowed(s: Lic) -> bool { s.opened < s.peer_max && s.opened - s.
 pub fn lic_on_open_counts(old: Lic, new: Lic) -> bool {
     new.opened == old.opened + 1 && new.peer_max == old.peer_max && new.closed == old.closed
 }
+// on_close_stream(): caller obligation closed < opened
+pub fn lic_on_close_counts(old: Lic, new: Lic) -> bool {
+    new.closed == old.closed + 1 && new.opened == old.opened && new.peer_max == old.peer_max
+}
+// available_stream_capacity() -> r: what the local application may still open, respecting both limits
+pub fn lic_capacity(s: Lic) -> i128 { imin(imax(0, s.local_max_open - (s.opened - s.closed)), imax(0, s.peer_max - s.opened)) }
